@@ -9,6 +9,9 @@ import VotelibProofs.Props.C01
 import VotelibProofs.Lemmas.ShapeQuota
 import VotelibProofs.Lemmas.ShapeCondorcet
 import VotelibProofs.Lemmas.ShapeConvert
+import VotelibProofs.Lemmas.ShapeSimple
+import VotelibProofs.Lemmas.ShapeRankedT2
+import VotelibProofs.Lemmas.ShapeSTV
 namespace VL.C08
 open VL
 
@@ -68,6 +71,53 @@ theorem quotaSelector_shape (quota : Rat → Nat → Rat) (eq : Bool) (om : OnMo
       rw [getNBest_all over n (le_of_lt hlt)]
       exact this
   · exact ⟨n, le_refl _, hmain n h1 hge, fun _ => rfl⟩
+
+/-! ### seat-less threshold selectors and the open-list evaluator (models of C16) -/
+
+section thresholds
+
+/-- **AbsoluteThreshold**: distinct candidates of the votes; the model is total (no error outcome) -/
+theorem abs_threshold_shape (t : Rat) (eq : Bool) (votes : Votes) (hwf : C09.WF votes) :
+    SeatlessShape (keys votes) (absoluteThreshold t eq votes) :=
+  seatless_of_sorted_filter votes hwf _
+
+/-- **RelativeThreshold**: distinct candidates of the votes; it answers whenever the total weight is not zero, its only
+    error outcome is the `ZeroDivisionError` of an all-zero profile (outside the property's quantifier) -/
+theorem rel_threshold_shape (t : Rat) (eq : Bool) (votes : Votes) (hwf : C09.WF votes) :
+    (∀ r, relativeThreshold t eq votes = .ok r → SeatlessShape (keys votes) r) ∧
+    (sumVals votes ≠ 0 → ∃ r, relativeThreshold t eq votes = .ok r) ∧
+    (∀ e, relativeThreshold t eq votes = .error e → sumVals votes = 0 ∧ e = .other "ZeroDivisionError") := by
+  unfold relativeThreshold
+  simp only
+  refine ⟨?_, ?_, ?_⟩
+  · intro r h
+    split at h
+    · injection h with h; subst h; exact ⟨List.nodup_nil, by simp⟩
+    · split at h
+      · cases h
+      · injection h with h; subst h; exact seatless_of_sorted_filter votes hwf _
+  · intro hne
+    split
+    · exact ⟨_, rfl⟩
+    · exact ⟨_, rfl⟩
+  · intro e h
+    split at h
+    · cases h
+    · split at h
+      · rename_i h0; injection h with h; exact ⟨h0, h.symm⟩
+      · cases h
+
+/-- **ThresholdOpenList**: for a duplicate-free candidate list containing everybody who received votes and
+    `n ≤` its length the evaluator answers with exactly `n` distinct list members — whatever the configuration; its
+    only error outcome (`openlist_error_iff` of C16) needs a voted candidate missing from the list. -/
+theorem openlist_shape (cfg : OpenListCfg) (votes : Votes) (n : Nat) (clist : List Cand)
+    (hwf : C09.WF votes) (hl : clist.Nodup) (hsub : ∀ c ∈ keys votes, c ∈ clist) (hn : n ≤ clist.length) :
+    (∃ r, thresholdOpenList cfg votes n clist = .ok r ∧ SelShape clist n (r.map Slot.cand)) ∧
+    ∀ e, thresholdOpenList cfg votes n clist ≠ .error e := by
+  obtain ⟨r, hr, hlen, hnd, hmem⟩ := C16.openlist_length_distinct cfg votes n clist hwf hl hsub hn
+  exact ⟨⟨r, hr, SelShape.of_cands hlen hnd hmem⟩, fun e he => by rw [hr] at he; cases he⟩
+
+end thresholds
 
 /-! ### distributions -/
 
